@@ -324,3 +324,68 @@ func init() {
 	register(&Scenario{Prop: "C17", Name: "c17/leasttime-6targets", Quick: []Bound{}, Thorough: []Bound{{0, 0}}, Body: c17LeastTimeMany(6), MaxSteps: 100000})
 	register(&Scenario{Prop: "C17", Name: "c17/unreachable", Quick: []Bound{{1, 0}}, Thorough: []Bound{{2, 0}}, Body: c17Unreachable, MaxSteps: 100000})
 }
+
+// concurrent callers: scheduling decisions are taken one at a time, so whatever the interleaving
+// of k callers, 2n calls over n stable live targets give every target exactly two calls, and
+// (LeastTime, all estimates unknown, within one Tick) at most one call is a rotation probe.
+func c17Concurrent(n, ncallers int) func(x *X) {
+	return func(x *X) {
+		addrs := []string{"a", "b", "c", "d"}[:n]
+		s := newCliSys(x, rpc.RoundRobinScheduling, addrs...)
+		for _, a := range addrs {
+			s.rt.up[a] = true
+		}
+		startShift := x.Choose(n)
+		s.tick(2)
+		for i := 0; i < startShift; i++ {
+			s.c.Call("X.Y", nil, nil)
+		}
+		forms := []int{cfCall, cfGo, cfPing, cfCallCtx, cfRoundTrip, cfStream}
+		fo := x.Choose(len(forms))
+		from := len(s.rt.routed)
+		total := 2 * n
+		// how many calls each caller makes: the first ncallers-1 callers make k calls each (a choice)
+		k := 1 + x.Choose((total-1)/(ncallers-1))
+		nerr := 0
+		for t := 0; t < ncallers; t++ {
+			t := t
+			cnt := k
+			if t == ncallers-1 {
+				cnt = total - k*(ncallers-1)
+			}
+			vs.GoNamed(fmt.Sprintf("caller%d", t), func() {
+				for i := 0; i < cnt; i++ {
+					if err := clientCall(s.c, forms[(fo+t+i)%len(forms)]); err != nil {
+						nerr++
+					}
+				}
+			})
+		}
+		vs.Quiesce()
+		if nerr > 0 {
+			x.Fail("C17/call-failed", "%d calls failed although every target is up", nerr)
+		}
+		counts := map[string]int{}
+		var seq []string
+		for _, r := range s.rt.userRoutes(from) {
+			counts[r.addr]++
+			seq = append(seq, r.addr)
+		}
+		if len(seq) != total {
+			x.Fail("C17/calls-not-routed", "%d calls issued, %d routed: %v", total, len(seq), seq)
+		}
+		for _, a := range addrs {
+			if counts[a] != 2 {
+				x.Fail("C17/roundrobin-unbalanced", "%d concurrent callers made %d calls over %d live targets; every target must get exactly 2, got %v (arrival order %v)", ncallers, total, n, counts, seq)
+				break
+			}
+		}
+		x.Outcome("n=%d k=%d %v", n, k, seq)
+		s.close()
+	}
+}
+
+func init() {
+	register(&Scenario{Prop: "C17", Name: "c17/roundrobin-2callers-3targets", Quick: []Bound{{1, 0}, {2, 0}}, Thorough: []Bound{{3, 0}}, Body: c17Concurrent(3, 2), MaxSteps: 100000})
+	register(&Scenario{Prop: "C17", Name: "c17/roundrobin-3callers-2targets", Quick: []Bound{{1, 0}, {2, 0}}, Thorough: []Bound{{3, 0}}, Body: c17Concurrent(2, 3), MaxSteps: 100000})
+}
